@@ -39,10 +39,10 @@ func GetAVCProtectRanges(spsMap map[uint32]*avc.SPS, ppsMap map[uint32]*avc.PPS,
 		if uint64(pos)+uint64(naluLength) > uint64(len(sample)) {
 			return nil, fmt.Errorf("NALU length fields are bad")
 		}
-		naluType := avc.GetNaluType(sample[pos])
 		var bytesToProtect uint32 = 0
 		clearEnd = pos + naluLength
-		if avc.IsVideoNaluType(naluType) {
+		// A zero-length NAL unit has no header: the byte at pos belongs to what follows
+		if naluLength > 0 && avc.IsVideoNaluType(avc.GetNaluType(sample[pos])) {
 			nalu := sample[pos : pos+naluLength]
 			switch scheme {
 			case "cenc":
@@ -73,6 +73,9 @@ func GetAVCProtectRanges(spsMap map[uint32]*avc.SPS, ppsMap map[uint32]*avc.PPS,
 
 		pos += naluLength
 	}
+	// Everything after the last protected range stays clear. That includes what the loop does not
+	// visit: a final zero-length NAL unit, or bytes too few to hold a length field.
+	clearEnd = uint32(length)
 	if clearEnd > clearStart {
 		ssps = AppendProtectRange(ssps, clearEnd-clearStart, 0)
 	}
@@ -95,10 +98,10 @@ func GetHEVCProtectRanges(spsMap map[uint32]*hevc.SPS, ppsMap map[uint32]*hevc.P
 		if uint64(pos)+uint64(naluLength) > uint64(len(sample)) {
 			return nil, fmt.Errorf("NALU length fields are bad")
 		}
-		naluType := hevc.GetNaluType(sample[pos])
 		var bytesToProtect uint32 = 0
 		clearEnd = pos + naluLength
-		if hevc.IsVideoNaluType(naluType) {
+		// A zero-length NAL unit has no header: the byte at pos belongs to what follows
+		if naluLength > 0 && hevc.IsVideoNaluType(hevc.GetNaluType(sample[pos])) {
 			nalu := sample[pos : pos+naluLength]
 			switch scheme {
 			case "cenc":
@@ -129,6 +132,9 @@ func GetHEVCProtectRanges(spsMap map[uint32]*hevc.SPS, ppsMap map[uint32]*hevc.P
 
 		pos += naluLength
 	}
+	// Everything after the last protected range stays clear. That includes what the loop does not
+	// visit: a final zero-length NAL unit, or bytes too few to hold a length field.
+	clearEnd = uint32(length)
 	if clearEnd > clearStart {
 		ssps = AppendProtectRange(ssps, clearEnd-clearStart, 0)
 	}
